@@ -138,8 +138,14 @@ def main():
                 # no host-name option at all, but other options a listing might want to show (client FQDN, vendor class, user
                 # class, relay agent information, ...) with too-short, empty, long and arbitrary contents
                 opts = [(55, bytes([1, 3, 6, 12, 15]))]
+                # ... always a client FQDN option (81: flags, two rcode octets, then the name -- in DNS wire form when the E
+                # flag, 0x04, is set): well-formed ones and ones whose inner lengths run past the end of the option
+                fq = [b"\x05\x00\x00\x04host\x07example\x00", b"\x04\x00\x00\x09ab", b"\x04\x00\x00\x3f", b"\x05\xff\xff\xc8" + b"x" * 10, b"\x04\x00\x00\x03abc",
+                      b"\x04\x00\x00\x03abc\xc0\x03", b"\x04\x00\x00\x01a\x40", b"\x00\x00\x00plain.example", b"\x04\x00\x00", b"\x04\x00", b"\x04",
+                      b"\x04\x00\x00\x00", b"\x04\x00\x00\x02\xff\xfe\x00", b"\x0f\x00\x00" + bytes([63]) + b"y" * 63 + bytes([63]) + b"z" * 10]
+                opts.append((81, fq[(i // 4) % len(fq)]))
             if i % 2 == 1:
-                for code in rnd.sample([81, 60, 77, 82, 43, 124, 125, 15, 93, 97, 116, 224], rnd.randint(1, 3)):
+                for code in rnd.sample([81, 60, 77, 82, 43, 124, 125, 15, 93, 97, 116, 224] if i % 4 != 3 else [60, 77, 82, 43, 124, 125, 15, 93, 97, 116, 224], rnd.randint(1, 3)):
                     val = rnd.choice([b"", b"\x01", b"\x01\x01", b"\x00\x00\x00", bytes(rnd.randrange(256) for _ in range(rnd.choice([3, 4, 9, 60, 255]))),
                                       b"\x05\x00\x00\x04host\x07example\x00", b'"\\\x00\xff'])
                     opts.append((code, val))
